@@ -131,4 +131,24 @@ def St.newSpaceModule (st : St) (parent : Path) (name : String) (bases : List Pa
     | some st2 => (st2, true)
     | none => (st1, false)
 
+/-- `import_module` / `new_space_from_module` with the functions checked BEFORE the space is created (candidate
+repair `notes/R6C11-candidate_import_module.diff`): a function must not be named like a model-level reference
+or like a reference of one of the bases (all the new space will hold besides cells, which a function
+overrides; child spaces of a base are not derived); then the space, then the functions.  The harness asks the code which of the two it is
+(`batch_api.import_module_checks_first`) and sends this line or `spacemodule`. -/
+def St.newSpaceModuleChecked (st : St) (parent : Path) (name : String) (bases : List Path)
+    (es : List (String × Nat)) : Option St :=
+  let taken := st.globals ++ st.allNames .refs bases
+  if !(nodupNames es && es.all (fun e => !taken.contains e.1)) then none
+  else
+    match st.newSpaceRefs kw parent name bases [] with
+    | none => none
+    | some st1 => st1.moduleBatch kw (parent ++ [name]) es
+
+def St.newSpaceModuleCheckedStep (st : St) (parent : Path) (name : String) (bases : List Path)
+    (es : List (String × Nat)) : St × Bool :=
+  match st.newSpaceModuleChecked kw parent name bases es with
+  | some st' => (st', true)
+  | none => (st, false)
+
 end MxModel.SM
